@@ -401,3 +401,28 @@ func HotTail(at, run, lead, total int, seed uint64) []byte {
 	}
 	return b[:total]
 }
+
+// Lucas: k byte values with counts 1, 1, 3, 4, 7, 11, 18, ... (every count larger than the sum of the two before it
+// would merge to: with the leaf-first tie-break of the code construction this, not the plain Fibonacci sequence, gives
+// the deepest possible tree: depth k-1), in pseudo-random order. k = 22 is 64077 bytes: the deepest tree one 64 KiB
+// Huffman-only block can have.
+func Lucas(k int, seed uint64) []byte {
+	counts := []int{1, 1}
+	a, b := 1, 3
+	for len(counts) < k {
+		counts = append(counts, b)
+		a, b = b, a+b
+	}
+	var out []byte
+	for i, c := range counts[:k] {
+		for j := 0; j < c; j++ {
+			out = append(out, byte(7+i*11))
+		}
+	}
+	r := newRng(seed ^ 0x10ca5)
+	for i := len(out) - 1; i > 0; i-- {
+		j := int(r.next() % uint64(i+1))
+		out[i], out[j] = out[j], out[i]
+	}
+	return out
+}
